@@ -240,4 +240,17 @@ def run_case(ctx, case):
     got = float(sum(np.asarray(l) for l in losses)) if losses else 0.0
     ctx.check("layer.losses/oracle-equal", abs(got - want) <= tol,
               "layer regularization loss %.9g differs from the documented %s value %.9g" % (got, kind, want))
+    # the same value from a layer rebuilt from its config (clone_model / save-load path: the regularizer is restored from
+    # its own get_config(), not re-derived from the layer's arguments)
+    try:
+      layer2 = type(layer).from_config(layer.get_config())
+      layer2.build((None, len(sizes)) if (lat and case["units"] == 1) else ((None, case["units"], len(sizes)) if lat else (None, 1)))
+      layer2.kernel.assign(w)
+      l2_ = layer2.losses
+      got2 = float(sum(np.asarray(l) for l in l2_)) if l2_ else 0.0
+      ctx.check("layer.losses/oracle-equal-after-config-round-trip", abs(got2 - want) <= tol,
+                "regularization loss of the layer rebuilt from its config is %.9g, documented %s value %.9g" % (got2, kind, want))
+    except Exception as e:
+      ctx.check("layer.losses/oracle-equal-after-config-round-trip", False,
+                "rebuilding the layer from its config raised %s: %s" % (type(e).__name__, str(e)[:200]))
   return (want > 0 or vanish), core.digest([case, core.arr_digest(w)])
